@@ -66,7 +66,7 @@ use std::panic::AssertUnwindSafe;
 use vh_common::*;
 
 /// The exchanges a case may use (position in this table = "pool index" of the JSON input).
-const POOL: [ExchangeId; 8] = [
+const POOL: [ExchangeId; 12] = [
     ExchangeId::Kraken,
     ExchangeId::BinanceSpot,
     ExchangeId::Okx,
@@ -75,6 +75,11 @@ const POOL: [ExchangeId; 8] = [
     ExchangeId::GateioSpot,
     ExchangeId::BybitSpot,
     ExchangeId::Mock,
+    // non-live ids and ids whose enum order differs from their name order
+    ExchangeId::Simulated,
+    ExchangeId::Other,
+    ExchangeId::Bitvavo,
+    ExchangeId::Bithumb,
 ];
 
 /// Number an ExchangeId for Coq. Scrambled so that index order (ExchangeId's derived Ord) is not
@@ -819,6 +824,14 @@ fn gen_random(r: &mut Rng, max_len: u64) -> Input {
 
 fn gen_adversarial(r: &mut Rng, max_len: u64) -> Input {
     let (mut exchanges, mut instr_per_ex) = gen_exchanges(r);
+    if r.chance(1, 2) {
+        // exactly three exchanges, one of them Mock / Simulated / Other next to live ones
+        let mut live: Vec<usize> = (0..7).collect();
+        r.shuffle(&mut live);
+        exchanges = vec![live[0], *r.pick(&[7usize, 8, 9]), live[1]];
+        r.shuffle(&mut exchanges);
+        instr_per_ex = vec![1 + r.below(2) as usize, 1 + r.below(2) as usize, 1 + r.below(2) as usize];
+    }
     if r.chance(1, 4) {
         // the same exchange listed twice (the index builder dedups)
         let d = exchanges[0];
